@@ -318,6 +318,9 @@ func (m *Machine) callVx(fn *ssa.Function, a []Value) Value {
 	case "vxTraceChan":
 		if ch, ok := a[0].(Iface).V.(*Chan); ok && ch != nil {
 			m.traceChans[ch] = true
+			// the occupancy at the moment tracing starts (a semaphore may count free slots:
+			// then the channel is created full)
+			m.SyncTrace = append(m.SyncTrace, fmt.Sprintf("I:%d", len(ch.buf)))
 		}
 		return nil
 	case "vxTraceMutex":
@@ -609,13 +612,15 @@ func (m *Machine) callVx(fn *ssa.Function, a []Value) Value {
 				continue
 			}
 			for _, seg := range strings.Split(rel, "/") {
-				if strings.HasPrefix(seg, "_scipipe_tmp") {
+				if strings.HasPrefix(seg, m.tempPrefix()) {
 					delete(m.Env.Nodes, p)
 					break
 				}
 			}
 		}
 		return nil
+	case "vxTempPrefix":
+		return m.tempPrefix()
 	case "vxFSRemoveTemp":
 		// clean-up step of C03: remove every _scipipe_tmp* subtree and *.fifo below cwd
 		for p := range m.Env.Nodes {
@@ -624,12 +629,12 @@ func (m *Machine) callVx(fn *ssa.Function, a []Value) Value {
 				continue
 			}
 			for _, seg := range strings.Split(rel, "/") {
-				if strings.HasPrefix(seg, "_scipipe_tmp") {
+				if strings.HasPrefix(seg, m.tempPrefix()) {
 					delete(m.Env.Nodes, p)
 					break
 				}
 			}
-			if strings.HasSuffix(p, ".fifo") {
+			if n := m.Env.Nodes[p]; n != nil && n.Kind == KFifo {
 				delete(m.Env.Nodes, p)
 			}
 		}
@@ -797,4 +802,32 @@ func (m *Machine) vxRun(f Value) (kind Value) {
 	m.Env.event(m, "run-start", int64(run.id))
 	m.callValue(f, nil, nil)
 	return
+}
+
+// tempPrefix: the prefix of the library's temp directories, read from the program itself
+// (the package-level variable tempDirPrefix of the root package) so that renaming the
+// scheme consistently does not confuse the clean-up step and the leftover checks.
+func (m *Machine) tempPrefix() string {
+	if v, ok := m.userData["__tempprefix"]; ok {
+		return v.(string)
+	}
+	pre := "_scipipe_tmp"
+	for _, pkg := range m.Prog.AllPackages() {
+		if pkg.Pkg.Path() != modPrefix {
+			continue
+		}
+		for name, mem := range pkg.Members {
+			g, ok := mem.(*ssa.Global)
+			if !ok || !strings.Contains(strings.ToLower(name), "tempdir") || !strings.Contains(strings.ToLower(name), "prefix") {
+				continue
+			}
+			if p, ok := m.globals[g]; ok && p != nil {
+				if sv, ok := (*p).(string); ok && sv != "" {
+					pre = sv
+				}
+			}
+		}
+	}
+	m.userData["__tempprefix"] = pre
+	return pre
 }
